@@ -1050,6 +1050,66 @@ theorem preserve_define (T : Tables) (w : World) (d : ClassDecl) (hadm : w.findC
   · exact Or.inr ⟨⟨d.name, rfl⟩, c, hc⟩
 
 
+/-! ### module properties -/
+
+theorem propAt_congr {h h' : Heap} {r : Ref} (e : h'[r]? = h[r]?) : h'.propAt r = h.propAt r := by
+  unfold Heap.propAt; rw [e]
+
+theorem findClass_step_ne (T : Tables) (w : World) (op : Op) (n : Name) (ho : Owner.cls n ≠ op.target) :
+    (step T w op).findClass n = w.findClass n := by
+  cases op with
+  | define d =>
+    have hname : (pureDefine T (chainOf w d) d).decl.name = d.name := by rw [pureDefine_decl]
+    have hn : n ≠ (pureDefine T (chainOf w d) d).decl.name := by
+      rw [hname]; intro h; exact ho (by simp [Op.target, h])
+    simp only [step, defineClass, findClass_layout_ne _ _ _ hn]
+  | inst n' c cfg => rfl
+  | setprop i p pa k v =>
+    have := (records_mutation T w (.setprop i p pa k v) (Or.inl ⟨i, p, pa, k, v, rfl⟩)).1
+    simp only [World.findClass, this]
+  | addEnum i p m =>
+    have := (records_mutation T w (.addEnum i p m) (Or.inr ⟨i, p, m, rfl⟩)).1
+    simp only [World.findClass, this]
+
+theorem findInst_step_ne (T : Tables) (w : World) (op : Op) (m : Name) (ho : Owner.inst m ≠ op.target) :
+    (step T w op).findInst m = w.findInst m := by
+  cases op with
+  | define d => rfl
+  | inst n c cfg =>
+    have hm : m ≠ n := by intro h; exact ho (by simp [Op.target, h])
+    exact findInst_instantiate_ne T w n c cfg m hm
+  | setprop i p pa k v =>
+    have := (records_mutation T w (.setprop i p pa k v) (Or.inl ⟨i, p, pa, k, v, rfl⟩)).2
+    simp only [World.findInst, this]
+  | addEnum i p m' =>
+    have := (records_mutation T w (.addEnum i p m') (Or.inr ⟨i, p, m', rfl⟩)).2
+    simp only [World.findInst, this]
+
+theorem propDict_root {w : World} {c : Name} {cr : ClassRec} {nr : Name × Ref} (hc : w.findClass c = some cr)
+    (h : nr ∈ cr.propDict) : nr.2 ∈ w.roots (.cls c) := by
+  simp only [World.roots, hc, List.mem_append, List.mem_map]
+  exact Or.inr ⟨nr, h, rfl⟩
+
+/-- no operation writes to an object reachable from a class: class definition and instantiation only append,
+the two mutations write inside their target instance, which shares nothing with a class -/
+theorem class_cell_step (T : Tables) (w : World) (op : Op) (hb : Bounded w) (hs : Separated w) (c : Name) (r : Ref)
+    (hr : r ∈ reach w (.cls c)) : (step T w op).heap[r]? = w.heap[r]? := by
+  have hlt := hb _ r hr
+  cases op with
+  | define d => exact (extends_define T w d).get hlt
+  | inst n c' cfg => exact (extends_instantiate T w n c' cfg).get hlt
+  | setprop i p pa k v => exact frame_step T w _ r hlt (fun hc => hs i (.cls c) (by simp) r hc hr)
+  | addEnum i p m => exact frame_step T w _ r hlt (fun hc => hs i (.cls c) (by simp) r hc hr)
+
+/-- the module properties of a class with record `cr` look the same after the operation -/
+theorem propDict_views_step (T : Tables) (w : World) (op : Op) (hb : Bounded w) (hs : Separated w) {c : Name}
+    {cr : ClassRec} (hc : w.findClass c = some cr) (f : Name → Option PVal) :
+    cr.propDict.map (fun nr => (nr.1, (⟨(step T w op).heap.propAt nr.2, f nr.1⟩ : MView))) =
+      cr.propDict.map (fun nr => (nr.1, (⟨w.heap.propAt nr.2, f nr.1⟩ : MView))) := by
+  apply List.map_congr_left
+  intro nr hnr
+  rw [propAt_congr (class_cell_step T w op hb hs c nr.2 (root_reach (propDict_root hc hnr) (self_mem_reachAcc _ _)))]
+
 /-! ### what a class is computed from: refinement to `pureOf` -/
 
 /-- every class of the world is what `pureOf` says, from some fuel on -/
